@@ -109,6 +109,35 @@ def runTagOps (ops : List Model.TagOp) : String := Id.run do
     | .fault f => outs := outs ++ [s!"FAULT {repr f}"]
   return if outs.isEmpty then "nop" else " | ".intercalate outs
 
+/-- `tgl`: long histories — per operation only `ret/len`, the stored bytes once at the end -/
+def runTagOpsL (ops : List Model.TagOp) : String := Id.run do
+  let mut t := Model.Tags.empty
+  let mut outs : Array String := #[]
+  for op in ops do
+    match Model.stepTag t op with
+    | .ok (r, t') => t := t'; outs := outs.push s!"{r}/{t'.length}"
+    | .err c => outs := outs.push s!"err {c}"
+    | .fault f => outs := outs.push s!"FAULT {repr f}"
+  return " | ".intercalate outs.toList ++ s!" final={t.length}/{toHex t.params}"
+
+/-- the property's reading of a whole history on the plain element list (C05: add appends, remove deletes the first
+element with that number, a setter replaces it); `none` as soon as that reading promises nothing (an element that
+cannot be stored, or a list with an empty element that is not the first) -/
+def refHistory : List Model.TagOp → List Spec.Elem → Option (List Spec.Elem)
+  | [], es => some es
+  | op :: rest, es =>
+    let set (n : Nat) (d : Bytes) : Option (List Spec.Elem) :=
+      if Spec.noInnerEmpty es ∧ d.length ≤ 255 then some (es.eraseP (fun e => e.num.toNat == n) ++ [⟨UInt8.ofNat n, d⟩]) else none
+    let next : Option (List Spec.Elem) := match op with
+      | .add n d => if n < 256 ∧ d.length ≤ 255 then some (es ++ [⟨UInt8.ofNat n, d⟩]) else none
+      | .remove n => if Spec.noInnerEmpty es then some (es.eraseP (fun e => e.num.toNat == n)) else none
+      | .setSsid d => set 0 d
+      | .setChannel c => set 3 [c]
+      | .check _ => some es
+    match next with
+    | some es' => refHistory rest es'
+    | none => none
+
 def toEditOp : Model.TagOp → Spec.EditOp
   | .add n d => .add n d
   | .remove n => .remove n
@@ -531,7 +560,10 @@ def stepClsH (σ : Nat → Bool) (rt : Bool) (bs : Bytes) : M String := do
   match fh.f with
   | some f =>
     -- libwifi_parse_data: type check, then malloc(body_len)
-    let dataStr := match ← parseDataReleaseH σ f with
+    let first ← parseDataReleaseH σ f
+    -- the harness extracts once more into the same object when the first extraction succeeded
+    if first matches .ok _ then let _ ← parseDataReleaseH σ f
+    let dataStr := match first with
       | .ok d => s!"data={toHex d.receiver}/{toHex d.transmitter}/{toHex d.body}"
       | _ => "data=err"
     freeFrameH fh
@@ -551,6 +583,7 @@ def stepMpH (σ : Nat → Bool) (rt : Bool) (bs : Bytes) : M String := do
     let mut out := "cls=ok"
     for (n, k) in mkinds do
       let r ← parseReleaseH σ k f
+      if r matches .ok _ then let _ ← parseReleaseH σ k f
       out := out ++ s!" # {n}=" ++ (match r with
         | .ok p => showParsed p
         | .err c => s!"err{c}"
@@ -569,7 +602,9 @@ def stepEapH (σ : Nat → Bool) (rt : Bool) (bs : Bytes) : M String := do
     let hs := match Model.checkHandshake f with | .ok r => toString r | _ => "FAULT"
     let msg := match Model.checkMessage f with | .ok r => toString r | _ => "FAULT"
     let kdl := match Model.keyDataLength f with | .ok r => toString r | _ => "FAULT"
-    let data := match ← wpaDataReleaseH σ f with
+    let firstW ← wpaDataReleaseH σ f
+    if firstW matches .ok _ then let _ ← wpaDataReleaseH σ f
+    let data := match firstW with
       | .ok d => showWpaData d.version d.type d.length d.descriptor d.information d.keyLength d.replay d.nonce d.iv d.rsc d.id d.mic d.keyData
       | .err c => s!"err{c}"
       | .fault x => s!"FAULT {repr x}"
@@ -639,6 +674,14 @@ def step (line : String) : String :=
   | ["tg", ops] =>
     match (ops.splitOn ",").mapM parseTagOp with
     | some ops => runTagOps ops
+    | none => "bad-op"
+  | ["tgl", ops] =>
+    match (ops.splitOn ",").mapM parseTagOp with
+    | some ops =>
+      let sp := match refHistory ops [] with
+        | some es => let b := Spec.encode es; s!"ends-with final={b.length}/{toHex b}"
+        | none => "any"
+      runTagOpsL ops ++ " ;; spec=" ++ sp
     | none => "bad-op"
   | "tgchkf" :: ops :: "@" :: rest =>
     match (ops.splitOn ",").mapM parseTagOp with
